@@ -353,7 +353,9 @@ def stepLine (st : Mode) (line : String) : Mode × String :=
         -- the counters of the model are unbounded naturals; the code's are size_t (8 bytes), the object is
         -- pointer + capacity + size (+ an empty allocator, padded to one more word)
         -- (the std_portable.h copy declares `difference_type = int`)
-        (st, s!"size=8 cap=8 diff={if p then 4 else 8} idx=8 obj=4")
+        -- round 3b: difference_type / size_type / the object size are not fixed by the property: the harness
+        -- reports them as tags (diff4|8, idx8, obj4), the compared result is the width of size() / capacity()
+        (st, "size=8 cap=8")
       else
         -- `a <k> <op …>` / `al <n> <op …>`: the operation runs with an allocation failure armed (Alloc.lean); after
         -- a failure the state must be the one the strong guarantee demands and the operation is run again unarmed
